@@ -19,11 +19,19 @@
 namespace {
 std::atomic<long> g_deadline_ms(0);
 long now_ms() { return std::chrono::duration_cast<std::chrono::milliseconds>(std::chrono::steady_clock::now().time_since_epoch()).count(); }
+// Progress-based: after the soft deadline a hang is reported only when every other thread has been asleep for 30 consecutive
+// samples (3 s); on a loaded machine a slow run keeps a thread runnable and is waited for.
 void watchdog() {
+  pid_t self = procstate::ktid(), pid = getpid();
+  int idle = 0;
   for (;;) {
-    usleep(50000);
+    usleep(100000);
     long d = g_deadline_ms.load();
-    if (d && now_ms() > d) { std::cout << "HANG threads did not finish (deadlock)" << std::endl; _exit(3); }
+    if (!d) { idle = 0; continue; }
+    long now = now_ms();
+    if (now <= d) { idle = 0; continue; }
+    idle = procstate::process_idle(pid, self) ? idle + 1 : 0;
+    if (idle >= 30 || now > d + 900000) { std::cout << "HANG threads did not finish (deadlock)" << std::endl; _exit(3); }
   }
 }
 
